@@ -473,6 +473,29 @@ def run_cli_layer(tier, acc):
             if t != ref[1]:
                 diff = sorted(k for k in set(t) | set(ref[1]) if t.get(k) != ref[1].get(k))
                 acc.fail(case, 'trainer.py: variant [%s] of %r trains a ruleset that differs from [%s] in %r' % (name, seq, ref[0], diff[:5]), 'cli-ruleset')
+    # an encoding given on the command line is the encoding used, also when it is 'ascii' and the list holds bytes that are valid UTF-8: those lines
+    # are undecodable, skipped and counted (same ruleset as the library gives with that encoding)
+    import shutil
+    for name, data, prefix in [v for v in variants(['caf\u00e9', 'password1', 'password1', 'letmein!'], 'utf-8') if v[0].startswith('LF')][:4]:
+        tf = os.path.join(td, 'train.txt')
+        with open(tf, 'wb') as f:
+            f.write(data)
+        argv = ['-t', tf, '-r', 'cli', '-e', 'ascii', '--coverage', '0.5', '--ngram', '3'] + (['--prefixcount'] if prefix else [])
+        shutil.rmtree(os.path.join(td, 'Rules', 'cli'), ignore_errors=True)
+        r = S.run_cli(td, 'trainer', argv)
+        acc.evals += 1
+        acc.nontrivial += 1
+        case = {'layer': 'cli', 'base': ['caf\u00e9', 'password1', 'password1', 'letmein!'], 'encoding': 'ascii', 'variant': name, 'file_hex': data.hex()}
+        base_dir = os.path.join(td, 'Rules', 'cli')
+        if r.exc or not os.path.exists(os.path.join(base_dir, 'Grammar', 'grammar.txt')):
+            acc.fail(case, 'trainer.py -e ascii did not produce a ruleset (%s)' % ((r.exc or '').strip().splitlines()[-1:] or r.stdout[-3:]), 'cli-train')
+            continue
+        t = P.tree_bytes(base_dir)
+        lt, _ = train_bytes_opts(td, data, 'ascii', prefix, 'lib', coverage=0.5, ngram=3)
+        t['config.ini'] = b'\n'.join(l for l in t['config.ini'].split(b'\n') if not l.startswith(b'number_of_encoding_errors'))
+        if lt is not None and lt != t:
+            diff = sorted(k for k in set(t) | set(lt) if t.get(k) != lt.get(k))
+            acc.fail(case, 'trainer.py -e ascii on a list with UTF-8 bytes [%s] and run_trainer() with encoding ascii differ in %r' % (name, diff[:5]), 'cli-vs-library')
     acc.sample({'layer': 'cli', 'argv': ['-t', 'train.txt', '-r', 'cli', '-e', 'utf-8', '--coverage', '0.5', '--ngram', '3', '--prefixcount']}, cap=1)
     tree.rmtree(td)
 
